@@ -11777,6 +11777,7 @@ Tree_init(Tree *self, PyObject *args, PyObject *kwds)
     tsk_id_t *tracked_samples = NULL;
     unsigned int options = 0;
     tsk_size_t j, num_tracked_samples, num_nodes;
+    long sample;
     PyObject *item;
 
     self->tree = NULL;
@@ -11810,11 +11811,12 @@ Tree_init(Tree *self, PyObject *args, PyObject *kwds)
             PyErr_SetString(PyExc_TypeError, "sample must be a number");
             goto out;
         }
-        tracked_samples[j] = (tsk_id_t) PyLong_AsLong(item);
-        if (tracked_samples[j] < 0 || tracked_samples[j] >= (tsk_id_t) num_nodes) {
+        sample = PyLong_AsLong(item);
+        if (sample < 0 || sample >= (long) num_nodes) {
             PyErr_SetString(PyExc_ValueError, "samples must be valid nodes");
             goto out;
         }
+        tracked_samples[j] = (tsk_id_t) sample;
     }
     self->tree = PyMem_Malloc(sizeof(tsk_tree_t));
     if (self->tree == NULL) {
